@@ -202,6 +202,8 @@ def execute(case, ctx):
         where = f"fault {act} at seam #{idx} {kind} {rel} (fmt={fmt_tag(fmt)}, flags={flags}, {n_changed} file(s) in the change set)"
         if idx in early_idx:
             ctx.count("early_phase_crash_sessions")
+        if res.get("status") == "ok" and res.get("state_depth") not in (0, None):
+            viol("I4-state-popped", f"snapshot-state-not-restored:{act}@{kind}", f"{where}: {res.get('state_depth')} snapshot state(s) still pushed after the session")
         # ---- I1 right after the fault (a crash before session-finish: nothing may have been rewritten at all)
         for fn, why in check_I1(pre, post, pre if idx in early_idx else twin, names):
             viol("I1-file-integrity", f"{why.split(' (')[0].split(',')[0]}:{act}@{kind}", f"{where}: {fn}: {why}\n--- content now\n{post.get(fn, b'')[:400].decode('utf-8', 'replace')}")
